@@ -280,21 +280,24 @@ Definition finish_transmit (pd : pending) (s : tstore) : tstore :=
 Definition set_pending (pd : pending) (s : tstore) : tstore :=
   mkStore (t_images s) (t_places s) (Some pd) (t_cursor s) (t_saved s) (t_sent s) (t_errs s).
 
+(* a=d with delete target d, image id and placement id (0 = not given) *)
+Definition delete_sel (d id pid : N) (s : tstore) : tstore :=
+  if (d =? 97) || (d =? 65) then   (* a / A: all placements *)
+    mkStore (t_images s) [] (t_pending s) (t_cursor s) (t_saved s) (t_sent s) (t_errs s)
+  else if (d =? 105) || (d =? 73) then   (* i / I *)
+    if (id =? 0) || (ID_MAX <? id) || (ID_MAX <? pid) then add_err E_ID s
+    else
+      let keep := filter (fun p => negb ((place_id p =? id) && ((pid =? 0) || (place_pid p =? pid))))
+                         (t_places s) in
+      let imgs :=
+        if (d =? 73) && negb (existsb (fun p => place_id p =? id) keep)
+        then filter (fun e => negb (fst e =? id)) (t_images s) else t_images s in
+      mkStore imgs keep (t_pending s) (t_cursor s) (t_saved s) (t_sent s) (t_errs s)
+  else add_err E_ACTION s.
+
 Definition do_delete (kvs : list (N * list N)) (s : tstore) : tstore :=
   match kv_chr k_d kvs 97, kv_num k_i kvs 0, kv_num k_p kvs 0 with
-  | Some d, Some id, Some pid =>
-      if (d =? 97) || (d =? 65) then   (* a / A: all placements *)
-        mkStore (t_images s) [] (t_pending s) (t_cursor s) (t_saved s) (t_sent s) (t_errs s)
-      else if (d =? 105) || (d =? 73) then   (* i / I *)
-        if (id =? 0) || (ID_MAX <? id) || (ID_MAX <? pid) then add_err E_ID s
-        else
-          let keep := filter (fun p => negb ((place_id p =? id) && ((pid =? 0) || (place_pid p =? pid))))
-                             (t_places s) in
-          let imgs :=
-            if (d =? 73) && negb (existsb (fun p => place_id p =? id) keep)
-            then filter (fun e => negb (fst e =? id)) (t_images s) else t_images s in
-          mkStore imgs keep (t_pending s) (t_cursor s) (t_saved s) (t_sent s) (t_errs s)
-      else add_err E_ACTION s
+  | Some d, Some id, Some pid => delete_sel d id pid s
   | _, _, _ => add_err E_KEY s
   end.
 
@@ -613,3 +616,22 @@ Fixpoint check_history (contents : list content) (t : track) (ops : list sop) (o
       end
   | _, _ => 198       (* a call did not return (panic) *)
   end.
+
+(* ---------- "at most once between error responses", "every placement names a transmitted image" ---------- *)
+(* a trace entry per call: the id named by the error response the call delivered (if it was one),
+   and the ids whose pixel data the call transmitted; `live` = ids transmitted since the last error
+   response naming them *)
+Fixpoint once_scan (live : list N) (tr : list (option N * list N)) : bool :=
+  match tr with
+  | [] => true
+  | (e, sent) :: r =>
+      let live0 := match e with Some id => filter (fun x => negb (x =? id)) live | None => live end in
+      match sent with
+      | [] => once_scan live0 r
+      | [i] => negb (nmem i live0) && once_scan (i :: live0) r
+      | _ => false
+      end
+  end.
+
+Definition places_valid (s : tstore) : Prop :=
+  forall p, In p (t_places s) -> img_lookup (place_id p) (t_images s) <> None.
